@@ -10,5 +10,6 @@ mod client;
 mod inbound;
 mod alias;
 mod wire;
+mod limits;
 
 pub(crate) fn tier_thorough() -> bool { std::env::var("VERIF_TIER").map(|v| v == "thorough").unwrap_or(false) }
